@@ -545,9 +545,9 @@ func (ex *Exec) appendStructs(st *State, elem types.Type, s, t SliceV, inPlace T
 				dArr := Ite(inPlace, s.Arr, fresh)
 				dOff := Ite(inPlace, s.Off, IntT(0))
 				j := Term{"j", SInt}
-				dst := wrap(ex.elemRef(ek, dArr, Add(dOff, j)))
-				srcS := wrap(ex.elemRef(ek, s.Arr, Add(s.Off, j)))
-				srcT := wrap(ex.elemRef(ek, t.Arr, Add(t.Off, Sub(j, s.Len))))
+				dst := wrap(ex.elemRef(ek, dArr, Ix(dOff, j)))
+				srcS := wrap(ex.elemRef(ek, s.Arr, Ix(s.Off, j)))
+				srcT := wrap(ex.elemRef(ek, t.Arr, Ix(t.Off, Sub(j, s.Len))))
 				st.Assume(Term{fmt.Sprintf("(forall ((j Int)) (! (=> (and (<= 0 j) (< j %s)) (= (select %s %s) (ite (< j %s) (select %s %s) (select %s %s)))) :pattern (%s)))",
 					n.S, h2.S, dst.S, s.Len.S, h.S, srcS.S, h.S, srcT.S, dst.S), SBool})
 				// frame: every reference that is not one of the destination elements keeps its value
